@@ -8,6 +8,8 @@ From Coq Require Import ZifyN ZifyNat ZifyBool.
 From KP Require Import model.Base model.Trace model.M5time.
 From KP Require Import proofs.M5timeFacts proofs.M5timeFacts2 proofs.M5timeFacts3 proofs.M5timeFacts4
                        proofs.M5timeFacts5 proofs.M5timeFacts6 proofs.M5timeFacts7 proofs.M5timeFacts9.
+(* the request-level acceptor: qualified names only (both views define state, step, init, drain, tgt ...) *)
+From KP Require model.M5full proofs.M5fullFacts proofs.M5fullInv proofs.M5fullDrain proofs.M5fullDrainFwd.
 Local Open Scope N_scope.
 
 (** ** Small facts about the heaps *)
@@ -1051,3 +1053,48 @@ Qed.
 Lemma begin_owners_single s t now timeout c :
   candidates s t now timeout = [c] -> certain s t c = true -> In (c, true) (begin_owners s t now timeout).
 Proof. intros Hc Hcert. unfold begin_owners. rewrite Hc, Hcert. left; reflexivity. Qed.
+
+(** ** (T3) jointly with the request-level view M5full: when a Drain call that a returning
+       command certainly started ended, the requests of its snapshot had left the in-flight
+       set of the target or been cancelled *)
+
+Lemma joint_settled_gen p pre eR post st sf c r p1 eB p2 sB t orig timeout :
+  run (step_gen p) init (pre ++ eR :: post) = Some st ->
+  run M5full.step M5full.init (pre ++ eR :: post) = Some sf ->
+  e_k eR = KReturn c r -> pre = p1 ++ eB :: p2 -> run (step_gen p) init p1 = Some sB ->
+  e_k eB = KDrainBegin t orig timeout -> orig <> TDraining ->
+  In (c, true) (begin_owners sB t (e_t eB) timeout) ->
+  exists q1 eE q2 o n fs x d sn,
+    p2 = q1 ++ eE :: q2 /\ goid (e_by eE) = goid (e_by eB) /\ e_k eE = KStateSet t o n /\
+    no_stateset_by (goid (e_by eB)) q1 /\
+    run M5full.step M5full.init (p1 ++ eB :: q1) = Some fs /\
+    nget (M5full.targets fs) t = Some x /\ nget (M5full.t_drains x) (goid (e_by eB)) = Some d /\
+    M5full.d_cancelled d = true /\ M5full.d_snap d = Some sn /\
+    (forall rq, In rq sn -> ~ In rq (M5full.t_inflight x) \/ M5fullFacts.cancelled fs rq = true) /\
+    (exists es rs, In es q1 /\ goid (e_by es) = goid (e_by eB) /\ e_k es = KDrainSnapshot t rs /\ map fst rs = sn).
+Proof.
+  intros Hrt Hrf HR Epre RB HB Ho Hown.
+  destruct (owned_drain_ended_gen _ _ _ _ _ _ _ _ _ _ _ _ _ _ Hrt HR Epre RB HB Ho Hown)
+    as (q1 & eE & q2 & o & n & Ep2 & HgE & HkE & Hno & Hcr).
+  destruct (Hcr I) as (eC & HinC & HgC & HkC).
+  exists q1, eE, q2, o, n.
+  (* the run of the request-level view up to the end event *)
+  subst pre p2.
+  replace ((p1 ++ eB :: q1 ++ eE :: q2) ++ eR :: post) with ((p1 ++ [eB]) ++ q1 ++ (eE :: q2 ++ eR :: post)) in Hrf
+    by (rewrite <- !app_assoc; cbn [app]; rewrite <- app_assoc; reflexivity).
+  destruct (run_prefix _ _ _ _ _ Hrf) as (fB & RfB & Hrf1).
+  destruct (run_prefix _ _ _ _ _ Hrf1) as (fs & Rfs & _).
+  pose proof (M5fullDrain.invBDE_run _ _ RfB) as IB.
+  destruct (run_prefix _ _ _ _ _ RfB) as (f0 & Rf0 & Rf1).
+  cbn [run] in Rf1. destruct (M5full.step f0 eB) as [fB'|] eqn:EfB; [|discriminate]. injection Rf1 as ->.
+  destruct (M5fullDrainFwd.fbegin_opens _ _ _ _ _ _ EfB HB Ho) as (x0 & Hx0 & Hd0).
+  destruct (M5fullDrainFwd.fdrain_run _ _ _ _ _ _ _ IB Rfs Hx0 Hd0 Hno) as (x & d & Hx & Hd & _ & Hcan & Hsnap).
+  assert (Rall : run M5full.step M5full.init (p1 ++ eB :: q1) = Some fs).
+  { change (p1 ++ eB :: q1) with (p1 ++ [eB] ++ q1). rewrite app_assoc, run_app, RfB. exact Rfs. }
+  assert (Hc : M5full.d_cancelled d = true) by exact (Hcan _ HinC HgC HkC).
+  destruct (M5fullDrain.invBDE_run _ _ Rall) as (_ & _ & HE).
+  destruct (HE _ _ _ _ Hx (M5fullFacts.nget_In _ _ _ _ Hd) Hc) as (sn & Hsn & Hall).
+  exists fs, x, d, sn. repeat split; try assumption.
+  destruct (Hsnap _ Hsn) as [Hbad|(es & rs & Hin & Hg & Hk & Hm)]; [discriminate Hbad|].
+  exists es, rs. repeat split; assumption.
+Qed.
